@@ -12,10 +12,16 @@ EXPLANATION = ('Abstract interpretation of both MsgPack readers over the exact d
 ASSUMPTIONS = ['input-sufficiency guards (position < size, optional has value) are taken as true for the tables; their false edges are checked to throw',
                'ConvertByPolicy / GetValue / stream primitives behave as modelled in rules/msgpack_tables.py (checked by C04 / C02 rules)']
 TRUSTED = ['clang 14 AST + constant evaluation', 'bsfacts', 'bsv/dtab.py interpreter', 'spec/msgpack_spec.py']
-UNITS = ['msgpack_readers.cpp']
+UNITS = ['msgpack_readers.cpp', 'w_archives.cpp']
 
 
 def run(prog, rep):
     M.check_accept_tables(prog, rep)
     M.check_bytecode_table(prog, rep)
     M.check_ext_offsets(prog, rep)
+
+    # ---------------------------------------------------------------- R7.5 the scope cursor stays in step with the reader (shared with C03 R3.5)
+    rep.rule('R7.5', 'MsgPack object scope: on every normal path of every method the values consumed equal the cursor advances (a skipped or '
+                     'mismatched member - nil in place of a nested object - leaves the following members readable)', floor=20)
+    from rules import c03
+    c03.check_object_scope(prog, rep, 'R7.5')
